@@ -25,6 +25,7 @@ EXPLANATION = (
     "the echoed value against the provenance of written values (R5). Does not decide CRC arithmetic on concrete frames."
     ' R5 also requires every single-register write command to hand the validator exactly the value expression it puts on the wire (wire-value).'
     ' (R6, shared with C07.R4) every path of the receive callbacks hands the received bytes to the validator: no ad-hoc test of the bytes filters frames or continuation fragments out beforehand.'
+    ' (R7, shared with C18.R1) the command factories hand their arguments on unchanged, so the echo of a write is compared with the value the caller passed.'
 )
 
 
